@@ -83,16 +83,24 @@ func (e *Env) PreToLower(L *relang.DFA) *relang.DFA {
 	})
 }
 
-// PreTrimSuffix: { v | strings.TrimSuffix(v, suf) ∈ L } for a one-rune suffix.
+// PreTrimSuffix: { v | strings.TrimSuffix(v, suf) ∈ L } (exact for any non-empty suffix: the suffix is removed once).
 func (e *Env) PreTrimSuffix(L *relang.DFA, suf string) (*relang.DFA, bool) {
-	rs := []rune(suf)
-	if len(rs) != 1 {
-		// over-approximation: L, L·suf
-		return relang.Union(L, relang.Concat(L, relang.Literal(e.A, suf))), false
+	if suf == "" {
+		return L, true
 	}
 	s := relang.Literal(e.A, suf)
 	endsWith := relang.Concat(e.all, s)
 	return relang.Union(relang.Concat(L, s), relang.Diff(L, endsWith)), true
+}
+
+// PreTrimPrefix: { v | strings.TrimPrefix(v, pre) ∈ L }.
+func (e *Env) PreTrimPrefix(L *relang.DFA, pre string) (*relang.DFA, bool) {
+	if pre == "" {
+		return L, true
+	}
+	s := relang.Literal(e.A, pre)
+	startsWith := relang.Concat(s, e.all)
+	return relang.Union(relang.Concat(s, L), relang.Diff(L, startsWith)), true
 }
 
 // Comp: { v | strings.Split(v, sep) has more than idx elements and element idx ∈ L } (single-rune sep: exact).
